@@ -483,6 +483,7 @@ package lisp
 //@   counts   ncall call
 //@   loop 1 (_) invariant [limits-consulted-every-turn] ncall - old(ncall) == nlim - old(nlim) && ncall - old(ncall) == ntc - old(ntc)
 //@   assert-at TerminalFID [tail-chain-sought-only-without-debugger] env.Runtime.Debugger == nil && arg1 == fun.FID()
+//@   assert-at PushFID [the-tail-chain-is-sought-whenever-no-debugger-is-attached] env.Runtime.Debugger == nil ==> local("npop") == ret("TerminalFID", 0)
 //@   assert-at markTailRec [mark-only-for-a-found-chain] arg0 == local("npop") && arg0 > 0 && arg1 == fun && arg2 == args
 //@   assert-at call [body-not-run-when-a-chain-was-found] local("npop") <= 0
 //@   property C05 C02
